@@ -43,11 +43,12 @@ NoBlob == -1
 \* pend    : sequence of [seen, upto]: syncs in flight (size read at begin, contiguous
 \*           completed prefix when sync_all was called; 0 before that)
 \* acked   : end offset of the last record the storage indexed in this blob
+\* recs    : blobs: [off, len] of every record acknowledged (indexed) in this execution, in order
 \* written : index files: the header carries the `written` bit
 \* descr   : index files: blob size recorded in the header
 NewFile(kind, id, loc, len) ==
   [kind |-> kind, id |-> id, loc |-> loc, size |-> len, chunks |-> {}, synced |-> len, dur |-> len,
-   pend |-> <<>>, acked |-> 0, written |-> FALSE, descr |-> 0, base |-> len]
+   pend |-> <<>>, acked |-> 0, written |-> FALSE, descr |-> 0, base |-> len, recs |-> <<>>]
 
 Exists(f) == f \in DOMAIN file
 IsBlob(f) == Exists(f) /\ file[f].kind = "blob"
@@ -82,7 +83,7 @@ OpenExisting(f, kind, id, loc, len) ==
                 IF x # f THEN file[x]
                 ELSE IF Exists(f)
                 THEN [NewFile(kind, id, loc, len) EXCEPT !.acked = file[f].acked, !.written = file[f].written,
-                                                        !.descr = file[f].descr]
+                                                        !.descr = file[f].descr, !.recs = file[f].recs]
                 ELSE NewFile(kind, id, loc, len)]
   /\ everBlob' = IF kind = "blob" THEN everBlob \cup {id} ELSE everBlob
   /\ UNCHANGED <<active, limit, api, strict>>
@@ -170,7 +171,7 @@ Appended(f, off, len) ==
   /\ IsBlob(f)
   /\ [off |-> off, len |-> len, done |-> TRUE] \in file[f].chunks
      \/ \E c \in file[f].chunks : c.done /\ c.off <= off /\ off + len <= c.off + c.len
-  /\ file' = [file EXCEPT ![f].acked = off + len]
+  /\ file' = [file EXCEPT ![f].acked = off + len, ![f].recs = Append(@, [off |-> off, len |-> len])]
   /\ UNCHANGED <<everBlob, active, limit, api, strict>>
 
 SetActive(id)  == active' = id /\ UNCHANGED <<file, everBlob, limit, api, strict>>
@@ -214,4 +215,47 @@ CloseLeavesNoDirty ==
 NoOverlap ==
   \A f \in Blobs : \A c1, c2 \in file[f].chunks :
      c1 # c2 => (c1.off + c1.len <= c2.off \/ c2.off + c2.len <= c1.off)
+
+-----------------------------------------------------------------------------
+(*                         crash and recovery (C06)                        *)
+
+\* cuts: sequence of <<file name, length of the file in the crash image>>
+CutOf(cuts, f) == LET m == {i \in DOMAIN cuts : cuts[i][1] = f} IN
+                  IF m = {} THEN -1 ELSE cuts[CHOOSE i \in m : TRUE][2]
+
+\* an image the crash model allows: after a kill every completed write is in the file; after a
+\* power loss at least the durable prefix is
+ImageAllowed(kind, cuts) ==
+  \A f \in DOMAIN file : file[f].loc = "w" =>
+     LET c == CutOf(cuts, f) IN
+     /\ c >= 0
+     /\ IF kind = "kill" THEN c = Contig(f) ELSE c >= file[f].dur /\ c <= file[f].size
+
+Pairs(s) == {<<s[i][1], s[i][2]>> : i \in DOMAIN s}
+RecsOf(f) == {<<file[f].id, file[f].recs[i].off>> : i \in DOMAIN file[f].recs}
+\* records of blob f that lie completely below a cut
+Below(f, c) == {<<file[f].id, file[f].recs[i].off>> : i \in {i \in DOMAIN file[f].recs : file[f].recs[i].off + file[f].recs[i].len <= c}}
+PrefixClosed(f, S) ==
+  \A i, j \in DOMAIN file[f].recs : i < j /\ <<file[f].id, file[f].recs[j].off>> \in S => <<file[f].id, file[f].recs[i].off>> \in S
+
+\* the index of blob f was complete and durable in the image: the blob was closed and indexed
+IndexedDurably(f, cuts) ==
+  LET i == "i" \o ToString(file[f].id) IN
+  /\ Exists(i) /\ file[i].written /\ file[i].dur = file[i].size /\ file[i].size > 0
+  /\ CutOf(cuts, i) = file[i].size /\ file[i].descr = file[f].size
+
+\* C06: what `init` made of the image
+RecoveryOK(kind, cuts, served, quar, restored) ==
+  \A f \in Blobs : file[f].loc = "w" =>
+     LET c   == CutOf(cuts, f)
+         mine == {p \in Pairs(served) : p[1] = file[f].id}
+         q   == file[f].id \in {quar[i] : i \in DOMAIN quar}
+     IN  IF q
+         THEN \* quarantined intact; after a pure kill every acknowledged record must be restorable
+              /\ mine = {}
+              /\ (kind = "kill" => RecsOf(f) \subseteq Pairs(restored))
+         ELSE /\ mine \subseteq Below(f, c)                \* nothing that was not completely on disk
+              /\ PrefixClosed(f, mine)                      \* a prefix of the acknowledged order
+              /\ (kind = "kill" => mine = RecsOf(f))        \* a kill loses nothing that was acknowledged
+              /\ (IndexedDurably(f, cuts) => mine = RecsOf(f))   \* closed and indexed blobs are served in full
 =============================================================================
